@@ -70,6 +70,9 @@ def run(ctx):
         late = first is not None and any(e in ab.reachable_from([first.bb]) for e in errs)
         ctx.ob('CHECK-BEFORE-INCREMENT', 'no-error-after-first-increment:%s' % add, first is not None and not late, ab.where(),
                'no error return is reachable after the first increment in %s (all levels checked first): %s' % (add, not late))
+        # ---- 2b. every `true` answer has consulted every table that add_* increments
+        # country_counts is a statistic: IPDiversityConfig defines no per-country limit, so there is no cap to consult
+        _cap_consulted(ctx, cb, can, sorted(t for t in ta if t != 'country_counts'))
         # ---- 3. halving
         rej = L.rejecting_conds(cb)
         n = 0
@@ -95,6 +98,7 @@ def run(ctx):
             ctx.ob('HALVING', 'limits-found:%s' % can, False, cb.where(), 'only %d counter-vs-limit comparisons recognised in %s' % (n, can))
     ctx.floor('PAIR', 4)
     ctx.floor('CHECK-BEFORE-INCREMENT', 4)
+    ctx.floor('CAP-CONSULTED', 8)
     ctx.floor('HALVING', 8)
     # unified dispatch
     for fn, v4, v6 in (('can_accept_unified', 'can_accept_ipv4', 'can_accept_node'), ('add_unified', 'add_ipv4', 'add_node'), ('remove_unified', 'remove_ipv4', 'remove_node')):
@@ -224,3 +228,61 @@ def _display_literals(prog, ty):
                         lits.append(v)
             return lits
     return []
+
+
+LOOKUP = r'LruCache::<.*>::peek$|LruCache::<.*>::get$|LruCache::<.*>::peek_mut$|LruCache::<.*>::get_mut$'
+
+
+def _table_of(e):
+    """enforcer counter field a lookup expression reads, or None"""
+    c = e.mentions_call(LOOKUP)
+    if c is None or not c.b:
+        return None, None
+    t = c.b[0].strip()
+    if t.k == 'field' and t.b.startswith(ENF + '::'):
+        return t.b.rsplit('::', 1)[-1], c
+    return None, None
+
+
+def _cap_consulted(ctx, cb, can, tables_):
+    """CAP-CONSULTED: on every path to `return true`, for every table T that the matching add_* increments, the path
+    crosses (a) the absent arm of the T lookup, or (b) the count-below-limit edge of a comparison on the T counter, or
+    (c) the None arm of the candidate's own Option field the T key is taken from (no ASN known: nothing to cap)."""
+    trues = [d[1] for d in cb.defs().get(0, []) if d[0] == 's' and d[3]['r']['k'] == 'use' and d[3]['r']['o'].get('c') == 'true']
+    if not trues:
+        ctx.anchor_fail('CAP-CONSULTED', '%s: no `true` return found' % can)
+        return
+    edges = cb.edge_nodes()
+    conds = {n: F.edge_cond(cb, e) for n, e in edges.items()}
+    for T in tables_:
+        pass_nodes = set()
+        keysrc = set()
+        for c in cb.calls(LOOKUP):
+            t = cb.expr(c.args[0]).strip()
+            if not (t.k == 'field' and t.b == ENF + '::' + T):
+                continue
+            for a in c.args[1:]:
+                for x in cb.expr(a).walk():
+                    if x.k == 'downcast':
+                        keysrc.add(x.a.strip().show())
+        for n, c in conds.items():
+            if c.kind == 'disc':
+                tn, _c = _table_of(c.expr)
+                if tn == T and not c.variant_is(1):
+                    pass_nodes.add(n)
+                if c.expr.strip().show() in keysrc and not c.variant_is(1):
+                    pass_nodes.add(n)
+            elif c.kind == 'bool' and not c.truth and c.expr.k == 'call' and re.search(r'LruCache::<.*>::contains$', c.expr.a) and c.expr.b:
+                t = c.expr.b[0].strip()
+                if t.k == 'field' and t.b == ENF + '::' + T:
+                    pass_nodes.add(n)      # `!table.contains(key)`: counter absent
+            elif c.kind == 'cmp':
+                for cnt, op in ((c.lhs, c.op), (c.rhs, F.CMP_FLIP[c.op])):
+                    tn, _c = _table_of(cnt)
+                    if tn == T and op in ('Lt', 'Le'):
+                        pass_nodes.add(n)
+        ok, wit = L.must_pass(cb, [0], pass_nodes, trues)
+        ctx.ob('CAP-CONSULTED', 'cap-consulted:%s:%s' % (can, T), ok and bool(pass_nodes), cb.where(cb.line_of_block(wit) if wit is not None else None),
+               ('every `true` answer of %s has seen the %s counter absent or below its limit' % (can, T)) if ok and pass_nodes else
+               ('%s can answer `true` (line %s) on a path that never consults the %s counter: that cap is not enforced on this path' % (
+                   can, cb.line_of_block(wit) if wit is not None else '?', T)), entry=cb.id)
